@@ -14,7 +14,8 @@ import (
 // (both objects wired to the real Transport's packetHandlerMap inside a synctest bubble;
 // part transport-paths: a client-side connection registered on two real Transports)
 // and c16_coal_test.go (coalesced packets with differing DCIDs fed through the real
-// Transport into a real Conn). Own targets: e3/ (lock points of the outgoing path manager)
+// Transport into a real Conn) and c16_spm_test.go (the real server-side pathManager wired to
+// the real connIDManager: migrating client, lost / acknowledged PATH_CHALLENGEs). Own targets: e3/ (lock points of the outgoing path manager)
 // and e2/ (whole connections: lifetime of the client's original Destination Connection ID
 // in the server's routing table).
 func TestVerifC16(t *testing.T) {
@@ -31,6 +32,8 @@ func TestVerifC16(t *testing.T) {
 		c16TptPart("transport", t, c16WorldCfg{}),
 		c16TptPart("transport-paths", t, c16WorldCfg{paths: true}),
 		c16CoalPart("coalesced"),
+		c16SpmPart("server-paths", false),
+		c16SpmPart("server-paths-zerolen", true),
 	}, func(msg string) { t.Fatal(msg) })
 }
 
@@ -43,6 +46,7 @@ var c16Weights = []struct {
 }{
 	{"mgr", 3}, {"mgr-wide", 2}, {"mgr-deep", 2}, {"mgr-zerolen", 0.1}, {"mgr-uquic", 3.5}, {"spec-limits", 0.1},
 	{"gen-server", 1.5}, {"gen-client", 1.2}, {"gen-zerolen", 0.1}, {"transport", 2.5}, {"transport-paths", 2.5}, {"coalesced", 1.5},
+	{"server-paths", 2.5}, {"server-paths-zerolen", 0.3},
 }
 
 func c16Slice(e explore.Env, name string) explore.Env {
